@@ -223,6 +223,28 @@ func runC03(c *Ctx) {
 	c03Entries(c)
 }
 
+// c03IsProto: v is the transport of the request: the Proto field of the proxy context, or a parameter to which every
+// caller hands that.
+func c03IsProto(v ssa.Value, depth int) bool {
+	v = core.ResolveCellLoad(v)
+	if fr, _, ok := core.LoadedField(v); ok {
+		return fr.Field == "Proto"
+	}
+	if prm, ok := v.(*ssa.Parameter); ok && depth < 3 {
+		args := core.ArgsOfParam(prm)
+		if len(args) == 0 {
+			return false
+		}
+		for _, a := range args {
+			if !c03IsProto(a, depth+1) {
+				return false
+			}
+		}
+		return true
+	}
+	return false
+}
+
 func c03PreBlocked(c *Ctx) {
 	p, r := c.P, c.R
 	fn := p.Fn("(*dnsforward.Server).preBlockedResponse")
@@ -254,8 +276,7 @@ func c03PreBlocked(c *Ctx) {
 			if at.Op != token.EQL && at.Op != token.NEQ {
 				return false, false
 			}
-			fr, _, ok := core.LoadedField(at.Base)
-			if !ok || fr.Field != "Proto" {
+			if !c03IsProto(at.Base, 0) {
 				return false, false
 			}
 			s, ok := core.ConstString(at.Other)
@@ -661,6 +682,60 @@ func c03HostRuleCase(c *Ctx) {
 			}
 		}
 	}
+	// the rule text may also be put together from strings (Join, concatenation, Sprintf): then everything that is
+	// not a constant in what is stored as the engine's text is a lower-cased element of the configured list
+	for _, b := range fn.Blocks {
+		for _, in := range b.Instrs {
+			st, isSt := in.(*ssa.Store)
+			if !isSt {
+				continue
+			}
+			if fr, ok := core.FieldOfAddr(st.Addr); !ok || fr.Field != "RulesText" || !strings.HasSuffix(fr.Type, "filterlist.StringRuleList") {
+				continue
+			}
+			var lowered []ssa.Value
+			os := core.Origins(st.Val, core.ProvOpts{Prog: p, Stop: func(v ssa.Value) string {
+				if core.IsCallResult(v, -1, "strings.ToLower") {
+					lowered = append(lowered, v)
+					return "lower-cased"
+				}
+				return ""
+			}})
+			var bad []string
+			for _, o := range os {
+				switch o.Kind {
+				case "stop", "const", "alloc":
+				case "call":
+					if o.Key != "github.com/AdguardTeam/golibs/stringutil.WriteToBuilder" { // its writes were judged above
+						bad = append(bad, o.String())
+					}
+				default:
+					bad = append(bad, o.String())
+				}
+			}
+			if len(lowered) == 0 && len(bad) == 0 {
+				continue // built in a strings.Builder: the writes into it were judged above
+			}
+			n++
+			okLower := len(bad) == 0
+			for _, lv := range lowered {
+				lc, _, _ := core.CallResult(lv)
+				fromHosts := false
+				for _, o := range core.Origins(lc.Common().Args[0], core.ProvOpts{Prog: p}) {
+					if o.Val == ssa.Value(hosts) {
+						fromHosts = true
+					}
+				}
+				if !fromHosts {
+					okLower = false
+					bad = append(bad, "lower-cased value is not an element of the configured list")
+				}
+			}
+			r.Check(okLower, "C03-D5", fmt.Sprintf("blocked-host-rule-lower-cased#%d", n), p.InstrPos(in),
+				"every configured blocked-host rule is lower-cased where the engine's rule text is built",
+				"a configured blocked-host rule reaches the engine in the case it was written in: request names are matched lower-cased, so a rule with a capital letter (from the configuration file, for one) never matches", bad...)
+		}
+	}
 	r.Floor("C03-D5", "blocked-host-rule-text-writes", n, 1)
 }
 
@@ -773,20 +848,27 @@ func c03Entries(c *Ctx) {
 		if len(call.Common.Args) != 4 || len(na.Params) < 2 {
 			continue
 		}
-		var which string
-		switch call.Arg(0) {
-		case ssa.Value(na.Params[0]):
-			which = "allowed"
-		case ssa.Value(na.Params[1]):
-			which = "blocked"
-		default:
-			continue
+		// one call per list, or one call in a loop over a table that has a row per list
+		argLists := [][]ssa.Value{call.Common.Args}
+		if rows, isTable := core.TableRows(call.Common.Args); isTable {
+			argLists = rows
 		}
-		f1, _, ok1 := core.LoadedField(call.Arg(1))
-		f2, ok2 := core.FieldOfAddr(call.Arg(2))
-		f3, _, ok3 := core.LoadedField(call.Arg(3))
-		if ok1 && ok2 && ok3 && f1.Field == which+"IPs" && f2.Field == which+"Nets" && f3.Field == which+"ClientIDs" {
-			got[which] = true
+		for _, args := range argLists {
+			var which string
+			switch core.ResolveCellLoad(args[0]) {
+			case ssa.Value(na.Params[0]):
+				which = "allowed"
+			case ssa.Value(na.Params[1]):
+				which = "blocked"
+			default:
+				continue
+			}
+			f1, _, ok1 := core.LoadedField(args[1])
+			f2, ok2 := core.FieldOfAddr(args[2])
+			f3, _, ok3 := core.LoadedField(args[3])
+			if ok1 && ok2 && ok3 && f1.Field == which+"IPs" && f2.Field == which+"Nets" && f3.Field == which+"ClientIDs" {
+				got[which] = true
+			}
 		}
 	}
 	r.Check(got["allowed"] && got["blocked"], "C03-D5", "lists-built-from-configuration", p.FnPos(na),
